@@ -4,6 +4,6 @@ CONSTANTS
   Threaded = TRUE
   MaxT = 2
   MaxF = 1
-  Shapes = {"C", "SC", "CS"}
+  Shapes = {"C", "SC", "CS", "CC"}
 INVARIANT Unbiased
 INVARIANT EnumExact
